@@ -95,7 +95,7 @@ PROPS = {
         'verus': [('local', ['SpanQueue::start_span', 'SpanQueue::finish_span', 'SpanQueue::add_event', 'SpanQueue::add_properties', 'SpanLine::start_span', 'SpanLine::finish_span', 'SpanLine::current_collect_token', 'SpanLine::new',
                              'LocalSpanStack::enter_span', 'LocalSpanStack::exit_span', 'LocalSpanStack::current_collect_token', 'LocalSpanStack::register_span_line', 'LocalSpanStack::unregister_and_collect', 'RawSpan::begin_with']),
                   ('coll', [H, 'postprocess_span_collection', 'amend_span', 'amend_local_span'])],
-        'kani': ['root_lifecycle', 'child_token_names_parent', 'issued_token_rewrites_parent_only', 'finish_submits_sampled_items_only', 'enter_with_parent_matches_model', 'next_id_formula_and_distinct'],
+        'kani': ['root_lifecycle', 'child_token_names_parent', 'issued_token_rewrites_parent_only', 'finish_submits_sampled_items_only', 'enter_with_parent_matches_model', 'child_of_two_trace_parent_is_in_both_traces', 'next_id_formula_and_distinct'],
         'assumptions': [KANI_ENV, API_SPLIT, COLL_ENV, COLL_STD, NOW, 'distinctness of span ids across threads rests on distinct random 32-bit prefixes (probabilistic, not an obligation); within a thread ids are distinct until the 32-bit counter wraps'],
     },
     'C05': {
@@ -116,7 +116,7 @@ PROPS = {
     },
     'C16': {
         'verus': [('local', ['SpanLine::add_properties', 'SpanLine::with_properties', 'LocalSpanStack::add_properties', 'LocalSpanStack::with_properties', 'LocalSpanStack::enter_span', 'LocalSpanStack::add_event'])],
-        'kani': ['disabled_build_is_inert', 'noop_span_never_calls_closures', 'root_without_reporter_is_noop', 'no_local_parent_is_inert', 'empty_parent_set'],
+        'kani': ['disabled_build_is_inert', 'noop_span_never_calls_closures', 'root_without_reporter_is_noop', 'root_before_reporter_is_noop', 'no_local_parent_is_inert', 'empty_parent_set'],
         'assumptions': [KANI_ENV, '"no thread": set_reporter is the only spawn site besides flush and both are cfg(feature = "enable") (syntactic)'],
     },
     'C13': {
